@@ -56,9 +56,9 @@ CHECKS = {
    text="Per-RPC-stream half: a real rpc::Service server over a simulated pipe faces the real client or a greedy raw-multiplexer client; the OPEN frames the server sends per RPC (parsed from its wire, stamped with simulated time) obey burst + T/refresh + 1 in every window, handler starts obey it up to the INFLIGHT streams opened earlier, and never more than INFLIGHT handlers run concurrently. Limiter half: 1-6 client tasks acquire / hold / drop / cancel on the real Limiter while the director advances the manual clock; over the grant history: no window of length T sees more than burst + T/refresh + 1 permits, waiters are served in arrival order, cancelled waits consume nothing (no leak: acquire(burst) is immediate after burst*refresh of idleness), nothing above burst is ever granted.",
    note="Time is the ManualClock; interleavings at await-point granularity."),
  "C17": dict(engine="primsim", design="DESIGN.md section 5 (C17)",
-   technique="deterministic simulation: generated task-tree programs on the real scope::run! under seeded schedules; event-log oracle",
-   text="Random programs (main/background tasks, tasks spawning tasks, joins, nested scopes, cancel(), errors, panics, caller deadlines) run on the real scope implementation under the gate scheduler. Oracle over start/end/active events vs the scope's return: returns only after all tasks ended; root's value iff nobody failed, else the error of the first failing task; a panic is re-raised after all tasks ended; the context is inactive from the event at which a task failed / the last main task completed / cancel() was called; the program terminates once the caller's deadline passed. A worker process dying (use-after-free after an early return) counts as a violation.",
-   note="Async tasks only; blocking tasks are not exercised in this revision. At await-point granularity a task failure is atomic, so 'first failure' is exact."),
+   technique="deterministic simulation: generated task-tree programs (async and blocking tasks) on the real scope::run! / run_blocking! under seeded schedules with preemption points inside the failure path; event-log oracle",
+   text="Random programs (main/background, async/blocking tasks, tasks spawning tasks, joins, nested run!/run_blocking! scopes, cancel(), errors, panics, scope timeouts, caller deadlines) run on the real scope implementation under the gate scheduler; blocking tasks are OS threads which run only while holding the scheduler's baton and can be preempted inside Once::send, set_err and run_blocking. Oracle over start/end/active events vs the scope's return: returns only after all tasks ended; root's value iff nobody failed, else the error of the first failing task (with blocking tasks: of a task whose routine ended before any other failing task was fully resolved, and never an error that merely reports a cancellation which only another task's failure can have caused); a panic is re-raised after all tasks ended; the context is inactive from the event at which a task failed / the last main task completed / cancel() was called; the program terminates once the caller's deadline passed. A worker process dying (use-after-free after an early return) counts as a violation.",
+   note="Half of the programs are purely async (failure atomic at await-point granularity, exact first-failure rule); the other half mix in blocking tasks and blocking scopes, which interleave at the H1 preemption points only."),
  "C18": dict(engine="primsim", design="DESIGN.md section 5 (C18)",
    technique="deterministic simulation: concurrent batch pushes into real address books; reference map model, independent signature re-verification, cross-book convergence",
    text="2-3 real ValidatorAddrsWatch instances receive the same batches of announcements in different orders from concurrent peer tasks. After every batch the verdict equals the reference model's (all-or-nothing batches, duplicates rejected, outsiders skipped, only strictly newer (version, timestamp) replaces, bad signatures on newer entries reject the batch); at the end every entry is re-verified independently, belongs to the committee, the book equals the model, and books that owe convergence agree.",
